@@ -24,7 +24,7 @@ _spec = importlib.util.spec_from_file_location("c05_values", os.path.join(os.pat
 V = importlib.util.module_from_spec(_spec)
 _spec.loader.exec_module(V)
 JSON_TYPES = ["varint", "filesize", "unix_file_mode", "uint16", "uint32", "net.tcp.Port", "boolean", "float", "string", "wstring", "bytes", "datetime", "digest", "path", "uri", "net.ipaddress", "net.ipnetwork", "stringlist"]
-EXTRA = {"float": ["float('inf')", "-0.0", "5e-324"], "bytes": ["bytes(range(256))", "b'\\x00'"], "string": ["'\\ud800'", "'line\\nbreak \"q\"'"], "net.ipaddress": ["'2001:db8::1'", "'::ffff:1.2.3.4'", "'::1.2.3.4'", "'::1'"], "net.ipnetwork": ["'2001:db8::/32'", "'::ffff:10.0.0.0/104'"],
+EXTRA = {"float": ["float('inf')", "-0.0", "5e-324"], "bytes": ["bytes(range(256))", "b'\\x00'"], "string": ["'\\ud800'", "'line\\nbreak \"q\"'"], "net.ipaddress": ["'2001:db8::1'", "'::ffff:1.2.3.4'", "'::1.2.3.4'", "'::1'"], "net.ipnetwork": ["'2001:db8::/32'", "'::ffff:10.0.0.0/104'"], "path": ["PurePosixPath('c:/evidence/pagefile.sys')", "PurePosixPath('\\\\\\\\host\\\\share\\\\f')", "PurePosixPath('C:\\\\Users\\\\x')"],
          "digest": ["('D41D8CD98F00B204E9800998ECF8427E', None, None)", "(None, 'DA39A3EE5E6B4B0D3255bfef95601890afd80709', None)"]}
 SKIP = {("path", "'c:\\\\x\\\\y'"), ("path", "PureWindowsPath('c:/q')")}  # the statement covers POSIX paths
 
@@ -155,7 +155,7 @@ def build(tier="quick", seed=0):
     # ---- descriptors off: plain lines stay readable with the same scalar values
     def th_plain():
         D = it.call(RD, ["c14/plain", [("varint", "n"), ("string", "s"), ("float", "f"), ("boolean", "b"), ("varint", "u")]], {})
-        r1 = it.call(D, [], {"n": SInt(x), "s": SStr(sv), "f": 1.5, "b": True})  # u unset -> null
+        r1 = it.call(D, [], {"n": SInt(x), "s": SStr(sv), "f": 1.5, "b": True, "_source": "src-1", "_classification": "cls-1"})  # u unset -> null
         r2 = it.call(D, [], {"n": None, "s": "t", "f": None, "b": False, "u": 9})  # the same keys, other kinds of values (null <-> number)
         lines = write_lines([r1, r2], descriptors="false")
         lines = lines + ['{"other": 1}\n']
@@ -163,10 +163,13 @@ def build(tier="quick", seed=0):
         res = []
         for o in out:
             res.append({k: o.attrs.get(k) for k in o.attrs if not k.startswith("_")})
-        return res, [it.getattr_(it.getattr_(o, "_desc"), "name") for o in out]
+        meta = (it.unbase(out[0].attrs.get("_source")), it.unbase(out[0].attrs.get("_classification")), it.unbase(out[0].attrs.get("_version")), it.unbase(out[0].attrs.get("_generated")) == it.unbase(r1.attrs["_generated"])) if out else None
+        return res, [it.getattr_(it.getattr_(o, "_desc"), "name") for o in out], meta
 
     def judge_plain(p):
-        res, names = p.value
+        res, names, meta = p.value
+        if meta != ("src-1", "cls-1", 1, True):
+            return False, f"the reserved fields of a plain line (written: _source='src-1', _classification='cls-1', _version=1, the record's _generated) were read back as {meta}"
         if len(res) != 3 or names != ["json/record"] * 3:
             return False, f"plain JSON lines read as {names} ({len(res)} records)"
         a, b, c = res
